@@ -149,6 +149,27 @@ Fixpoint mismatches_from (i : N) (l : list case) : list N :=
   | c :: r => if agrees c then mismatches_from (i + 1)%N r else i :: mismatches_from (i + 1)%N r
   end.
 
+(* observed values that are not well-formed (the implementation returned them with a nil error) *)
+Definition owf {A : Type} (wf : A -> bool) (o : outcome A) : bool :=
+  match o with Ok a => wf a | NilNil => false | _ => true end.
+Definition wf_value (v : value) : bool :=
+  match v with
+  | VNode n => wf_node n | VPred p => wf_pred p | VLit l => wf_literal l | VObj o => wf_object o
+  | VTriple t => wf_triple t
+  end.
+Fixpoint illformed_from (i : N) (l : list case) : list N :=
+  match l with
+  | [] => []
+  | c :: r =>
+      let ok := match c with
+                | CParse _ on op ol oo ot =>
+                    owf wf_node on && owf wf_pred op && owf wf_literal ol && owf wf_object oo && owf wf_triple ot
+                | CValue _ _ parsed _ => owf wf_value parsed
+                | _ => true
+                end in
+      if ok then illformed_from (i + 1)%N r else i :: illformed_from (i + 1)%N r
+  end.
+
 (* value cases whose value lies in the documented domain *)
 Fixpoint in_domain_from (i : N) (l : list case) : list N :=
   match l with
